@@ -75,8 +75,15 @@ def _eq(self, other):
     return type(self) is type(other) and self._kw == other._kw
 
 
+def _r(v):
+    try:
+        return repr(v)
+    except ValueError:       # an int beyond the int-to-str digit limit (yatiml formats objects into its debug log)
+        return '<int of %d bits>' % v.bit_length() if isinstance(v, int) else '<unreprable>'
+
+
 def _repr(self):
-    return '%s(%s)' % (type(self).__name__, ', '.join('%s=%r' % kv for kv in self._kw.items()))
+    return '%s(%s)' % (type(self).__name__, ', '.join('%s=%s' % (k, _r(v)) for k, v in self._kw.items()))
 
 
 # ---------------------------------------------------------------- trees <-> nodes
